@@ -280,7 +280,10 @@ def S_truediv(a, b):
     if is_conc(a) and is_conc(b):
         return a / b
     if not is_conc(b):
-        raise UnsupportedSymbolicOp("division by a symbolic value")
+        # a symbolic divisor is accepted when the path condition proves it non-zero (z3's x/0 is not NumPy's inf/nan)
+        tb0 = _as_int(T(b))
+        if not ENGINE.prove(tb0 != 0):
+            raise UnsupportedSymbolicOp("division by a symbolic value that may be zero")
     ta, tb = T(a), T(b)
     ta = _as_int(ta)
     if not z3.is_real(ta):
@@ -658,6 +661,24 @@ def S_pow(a, b):
         for _ in range(_pyval(b)):
             r = S_mul(r, a)
         return r
+    if is_conc(a) and isinstance(b, SV) and not z3.is_real(b.t) and not z3.is_bool(b.t):
+        # concrete base, symbolic integer exponent with known small bounds: a table over the exponent values.
+        # A float base gives the exact rational power (exact-real model), an integer base with a negative exponent is left out.
+        lo, hi = _bnd(b)
+        base = _pyval(a)
+        if lo is not None and hi is not None and hi - lo <= 256 and isinstance(base, (int, float)) and base != 0:
+            from fractions import Fraction
+            if isinstance(base, float) or lo >= 0:
+                fb = Fraction(base)
+                isint = isinstance(base, int)
+                t = None
+                for k in range(hi, lo - 1, -1):
+                    v = fb ** k
+                    vt = z3.IntVal(int(v)) if isint else z3.RealVal(f"{v.numerator}/{v.denominator}")
+                    t = vt if t is None else z3.If(b.t == k, vt, t)
+                if isint:
+                    return mk(simp(t), int(min(fb ** lo, fb ** hi)), int(max(fb ** lo, fb ** hi)))
+                return mk(simp(t))
     raise UnsupportedSymbolicOp("power with symbolic operand")
 
 
